@@ -2,6 +2,8 @@ package c18
 
 import (
 	"bytes"
+	"encoding/binary"
+	"errors"
 	"fmt"
 
 	"github.com/NethermindEth/juno/core"
@@ -116,6 +118,8 @@ func (c *chain) oldLayoutDB(prunedBelow int) *memory.Database {
 		return m
 	}
 	must(core.WriteChainHeight(m, uint64(len(c.shape)-1)))
+	tip := uint64(len(c.shape) - 1)
+	must(core.WriteL1Head(m, &core.L1Head{BlockNumber: tip, BlockHash: f(0xb10c000 + tip), StateRoot: f(0x57a7e)}))
 	for b := range c.shape {
 		if b < prunedBelow {
 			continue
@@ -124,7 +128,29 @@ func (c *chain) oldLayoutDB(prunedBelow int) *memory.Database {
 		hdr := core.Header{Number: bn, Hash: f(0xb10c000 + bn), TransactionCount: uint64(c.shape[b])}
 		must(core.BlockHeadersByNumberBucket.Put(m, bn, &hdr))
 		must(txlayout.TransactionLayoutPerTx.WriteTransactionsAndReceipts(m, bn, c.txs[b], c.rcs[b]))
-		must(core.WriteStateUpdateByBlockNum(m, bn, &core.StateUpdate{StateDiff: c.stateDiff(b)}))
+		sd := c.stateDiff(b)
+		must(core.WriteStateUpdateByBlockNum(m, bn, &core.StateUpdate{BlockHash: hdr.Hash, StateDiff: sd}))
+		must(core.WriteBlockHeaderNumberByHash(m, hdr.Hash, bn))
+		// legacy per-contract history logs, one entry per storage / nonce diff of the block (what the legacy state
+		// wrote and what the history-prune migration stages and restores): [bucket][addr][slot?][block BE] -> 32 bytes
+		var be [8]byte
+		binary.BigEndian.PutUint64(be[:], bn)
+		for addr, slots := range sd.StorageDiffs {
+			ab := addr.Bytes()
+			for slot := range slots {
+				sb := slot.Bytes()
+				k := append([]byte{byte(db.DeprecatedContractStorageHistory)}, ab[:]...)
+				k = append(append(k, sb[:]...), be[:]...)
+				v := f(0x01d000 + bn).Bytes()
+				must(m.Put(k, v[:]))
+			}
+		}
+		for addr := range sd.Nonces {
+			ab := addr.Bytes()
+			k := append(append([]byte{byte(db.DeprecatedContractNonceHistory)}, ab[:]...), be[:]...)
+			v := f(0x0e0000 + bn).Bytes()
+			must(m.Put(k, v[:]))
+		}
 		must(core.WriteBlockCommitment(m, bn, &core.BlockCommitments{TransactionCommitment: f(0x7c0 + bn),
 			EventCommitment: f(0xe70 + bn), ReceiptCommitment: f(0x4ec + bn), StateDiffCommitment: f(0x5d0 + bn)}))
 	}
@@ -165,6 +191,12 @@ func must(err error) {
 // checkContent reads every retained block through the CURRENT accessors and compares with the original
 // content. It returns the first discrepancy ("" if none).
 func (c *chain) checkContent(r db.KeyValueReader, prunedBelow int, wantSDL bool) string {
+	return c.checkContentOpt(r, prunedBelow, wantSDL, false)
+}
+
+// checkContentOpt: noHashLookups skips the by-hash lookups (the history-prune migration wipes the reverse-lookup
+// buckets at its start and rebuilds them at its end, so they are legitimately absent while it is in flight).
+func (c *chain) checkContentOpt(r db.KeyValueReader, prunedBelow int, wantSDL, noHashLookups bool) string {
 	for b := prunedBelow; b < len(c.shape); b++ {
 		bn := uint64(b)
 		txs, err := core.GetTransactionsByBlockNumber(r, bn)
@@ -191,9 +223,11 @@ func (c *chain) checkContent(r db.KeyValueReader, prunedBelow int, wantSDL bool)
 			}
 			// derived lookups: by hash, by (block,index), pair, status
 			h := (*felt.TransactionHash)(c.txs[b][i].Hash())
-			t2, err := core.GetTransactionByHash(r, h)
-			if err != nil || !bytes.Equal(mustEnc(t2), c.encTx[b][i]) {
-				return fmt.Sprintf("block %d tx %d: GetTransactionByHash: %v", b, i, err)
+			if !noHashLookups {
+				t2, err := core.GetTransactionByHash(r, h)
+				if err != nil || !bytes.Equal(mustEnc(t2), c.encTx[b][i]) {
+					return fmt.Sprintf("block %d tx %d: GetTransactionByHash: %v", b, i, err)
+				}
 			}
 			t3, r3, err := core.GetTransactionAndReceiptByBlockAndIndex(r, bn, uint64(i))
 			if err != nil || !bytes.Equal(mustEnc(t3), c.encTx[b][i]) || !bytes.Equal(mustEnc(r3), c.encRc[b][i]) {
@@ -264,6 +298,35 @@ func (c *chain) checkSDL(r db.KeyValueReader, prunedBelow int) string {
 		if !cm.TransactionCommitment.Equal(f(0x7c0+bn)) || !cm.EventCommitment.Equal(f(0xe70+bn)) ||
 			!cm.ReceiptCommitment.Equal(f(0x4ec+bn)) || !cm.StateDiffCommitment.Equal(f(0x5d0+bn)) {
 			return fmt.Sprintf("block %d: commitments changed", b)
+		}
+	}
+	return ""
+}
+
+// checkPruned: every block below the prune cutoff is reported as pruned (not found) by the current accessors, and
+// the retained blocks' hash -> number index was rebuilt.
+func (c *chain) checkPruned(r db.KeyValueReader, cutoff int) string {
+	for b := 0; b < cutoff && b < len(c.shape); b++ {
+		bn := uint64(b)
+		if _, err := core.GetTransactionsByBlockNumber(r, bn); !errors.Is(err, db.ErrKeyNotFound) {
+			return fmt.Sprintf("pruned block %d: transactions still readable or wrong error (%v)", b, err)
+		}
+		if _, err := core.GetBlockCommitmentByBlockNum(r, bn); !errors.Is(err, db.ErrKeyNotFound) {
+			return fmt.Sprintf("pruned block %d: commitments still there (%v)", b, err)
+		}
+		if _, err := core.GetStateUpdateByBlockNum(r, bn); !errors.Is(err, db.ErrKeyNotFound) {
+			return fmt.Sprintf("pruned block %d: state update still there (%v)", b, err)
+		}
+		for i := range c.txs[b] {
+			if _, err := core.GetTransactionByHash(r, (*felt.TransactionHash)(c.txs[b][i].Hash())); !errors.Is(err, db.ErrKeyNotFound) {
+				return fmt.Sprintf("pruned block %d tx %d: still found by hash (%v)", b, i, err)
+			}
+		}
+	}
+	for b := cutoff; b < len(c.shape); b++ {
+		n, err := core.GetBlockHeaderNumberByHash(r, f(0xb10c000+uint64(b)))
+		if err != nil || n != uint64(b) {
+			return fmt.Sprintf("retained block %d: hash -> number index not rebuilt (%v)", b, err)
 		}
 	}
 	return ""
